@@ -835,10 +835,26 @@ def build(run):
                 return violated(f"{t_.name}: the reconstructed node has shape {r.ufl_shape} / free indices {r.ufl_free_indices}, the operator applied to the new operands has "
                                 f"{want.ufl_shape} / {want.ufl_free_indices}", replay={"template": t_.name, "got": str(r)[:300]}, reproduced=True, backend="structural")
             if type(r) is type(want) and r == want:
-                return proved("structural", sample=f"{t_.name}: the reconstructed node equals the operator applied to the new operands")
-            mkw = real_world(gdim=2) if t_.needs_dom else real_world()
-            return check_same(mkw, r, lambda w, c, env: den(w, want, c, env), want.ufl_shape, want.ufl_free_indices, want.ufl_index_dimensions, timeout_ms=tmo,
-                              what=f"{t_.name}: _ufl_expr_reconstruct_ with new operands")
+                res = proved("structural", sample=f"{t_.name}: the reconstructed node equals the operator applied to the new operands")
+            else:
+                mkw = real_world(gdim=2) if t_.needs_dom else real_world()
+                res = check_same(mkw, r, lambda w, c, env: den(w, want, c, env), want.ufl_shape, want.ufl_free_indices, want.ufl_index_dimensions, timeout_ms=tmo,
+                                 what=f"{t_.name}: _ufl_expr_reconstruct_ with new operands")
+            if res.status != "proved" or dom is None or len(ops1) != 1 or ops1[0].ufl_free_indices:
+                return res
+            # differential operators: a new operand that is constant on each cell (the reconstruction may fold to a zero): still the operator's shape
+            import ufl as _u
+            cst = _u.Constant(dom, ops1[0].ufl_shape)
+            try:
+                rc, wc = o._ufl_expr_reconstruct_(cst), t_.build([cst])
+            except REFUSE as ex:
+                if not deliberate(ex):
+                    return violated(f"crash instead of a result or a refusal: {crash_text(ex)}", reproduced=True, backend="exec")
+                return res
+            if rc.ufl_shape != wc.ufl_shape or rc.ufl_shape != o.ufl_shape:
+                return violated(f"{t_.name}: reconstructed around a cellwise-constant operand of shape {cst.ufl_shape} the node has shape {rc.ufl_shape}; the operator applied to "
+                                f"it has {wc.ufl_shape} (the node itself {o.ufl_shape})", replay={"template": t_.name, "got": repr(rc)[:300]}, reproduced=True, backend="structural")
+            return res
         run.add(f"reconstruct/{t_.name}", recon, kind="values")
 
     # ---- canary: a wrong intended operation must be refuted
